@@ -30,7 +30,12 @@ type externalFn func(fr *frame, args []value) value
 // Key strings are from Function.String().
 var externals = make(map[string]externalFn)
 
-func init() {
+// NOTE(verif): this table must be installed BEFORE the init() functions of
+// ext_*.go run (they override/delete entries); file-name init order would run
+// this one last ("ext_" < "exte"), so it is a package-level initializer.
+var _ = installStockExternals()
+
+func installStockExternals() bool {
 	// That little dot ۰ is an Arabic zero numeral (U+06F0), categories [Nd].
 	maps.Copy(externals, map[string]externalFn{
 		"(reflect.Value).Bool":            ext۰reflect۰Value۰Bool,
@@ -114,6 +119,7 @@ func init() {
 		"time.Sleep":                      ext۰time۰Sleep,
 		"unicode/utf8.DecodeRuneInString": ext۰unicode۰utf8۰DecodeRuneInString,
 	})
+	return true
 }
 
 func ext۰bytes۰Equal(fr *frame, args []value) value {
